@@ -261,6 +261,22 @@ static void check_loaded_route(Ctx &c, const Cfg &cfg0, const std::string &hist)
             }
         }
     }
+    // transitions with values loaded: update(depth+1) leaves the surrogate of the old space intact while the refinement is pending,
+    // and after the new values are loaded the (larger) space still contains the old members
+    if ((cfg.fam == F_GLOBAL || cfg.fam == F_SEQUENCE) && cfg.depth <= 2 && !is_exotic(cfg)){
+        for(int stage = 0; stage < 2; stage++){
+            try{
+                if (stage == 0){ g.updateGrid(cfg.depth + 1, cfg.type, cfg.aw); c.transitions++; if (g.getNumNeeded() == 0) break; }
+                else { auto xn = g.getNeededPoints(); int nn = g.getNumNeeded(); if (nn > 2500) break; std::vector<double> vn((size_t) nn * outs); for(int i=0;i<nn;i++) for(size_t s2=0;s2<sel.size();s2++) vn[(size_t) i*outs + s2] = f(&xn[(size_t) i*d], s2, 0); g.loadNeededValues(vn); c.transitions++; }
+            }catch(std::runtime_error &e){ std::string w = e.what(); if (w.find("hardcoded") != std::string::npos || w.find("are provided") != std::string::npos || w.find("table ends") != std::string::npos) break; report(c, "C03:update-with-values-throws:" + rname, cfg, hist + " load(space) update", w); return; }
+            c.states++;
+            for(size_t t=0;t<P.size();t++){ std::vector<double> y; g.evaluate(P[t], y);
+                for(int k=0;k<outs;k++){ double ex = f(P[t].data(), (size_t) k, 0); c.evals++;
+                    if (!(std::abs(y[k] - ex) <= 1e-7 * std::max(1.0, std::abs(ex)) * (1.0 + 10.0 * g.getNumLoaded()))){
+                        std::ostringstream o; o.precision(15); o << "member ("; for(int j=0;j<d;j++) o << sel[k][j] << (j+1<d?",":""); o << ") after " << (stage == 0 ? "update(depth+1) with the refinement pending" : "update(depth+1) and loading the new values") << ": evaluate() gives " << y[k] << ", exact " << ex << " at probe " << t;
+                        report(c, "C03:iexact:" + rname + ":evaluate-after-update", cfg, hist + " load(space) update(depth+1)" + (stage ? " load" : ""), o.str()); return; } } }
+        }
+    }
 }
 
 // ---------------------------------------------------------------- transitions (depth 1)
